@@ -72,7 +72,8 @@ def node(draw, depth, budget):
 def trees(draw):
     if draw(st.integers(0, 59)) == 0:
         # a wide flat scheduler: ids are 3 digits wide
-        n = draw(st.sampled_from([100, 130]))
+        # ids change width at powers of ten
+        n = draw(st.sampled_from([9, 10, 11, 99, 100, 101, 130, 999, 1000, 1001]))
         seed = draw(st.integers(1, 2 ** 16))
         members = [dict(kind='job', label=draw(label_st) if i < 3 else 'w%d' % i, glabel=None,
                         critical=bool((i + seed) % 3 == 0), forever=bool((i + seed) % 7 == 0),
@@ -398,6 +399,12 @@ def evaluate(case):
                      % (len(lines), path, sid))
             return res
         for r in obj.required:
+            r_lines = [k for k, l in enumerate(listing)
+                       if l.startswith(r._sched_id + ' ') and '--end--' not in l]
+            if r_lines and r_lines[0] > listing.index(lines[0]):
+                res.fail('C20:list-order', "%s (id %s) is listed before its requirement (id %s)"
+                         % (path, sid, r._sched_id))
+                return res
             if int(r._sched_id) >= int(sid):
                 res.fail('C20:list-not-topological', "%s has id %s but its requirement has "
                          "id %s" % (path, sid, r._sched_id))
